@@ -55,3 +55,87 @@ package annotations
 //@   loop 1 invariant forall k int :: 0 <= k && k < len(params) ==> spec.isQueryParamOf(params[k], params[k].Field) && spec.hasQuery(params[k].Field) && member(message.Fields, params[k].Field)
 //@   loop 1 invariant forall j int :: 0 <= j && j < _i && spec.hasQuery(message.Fields[j]) ==> (exists k int :: 0 <= k && k < len(params) && params[k].Field == message.Fields[j])
 //@   loop 1 invariant len(params) <= _i
+
+// ---- annotation validators (C12) ----
+
+//@ func IsNullableField(field *protogen.Field) (r bool)
+//@   pure
+//@   ensures r == spec.nullableAnno(field)
+
+//@ func ValidateNullableAnnotation(field *protogen.Field, messageName string) (err error)
+//@   ensures iff: (err == nil) <==> spec.Rule_nullable(field)
+//@   ensures names: err != nil ==> contains(errmsg(err), string(field.Desc.Name())) && contains(errmsg(err), messageName)
+
+//@ func GetEmptyBehavior(field *protogen.Field) (r sebufhttp.EmptyBehavior)
+//@   pure
+//@   ensures r == spec.emptyBehavior(field)
+
+//@ func HasEmptyBehaviorAnnotation(field *protogen.Field) (r bool)
+//@   pure
+//@   ensures r == (spec.emptyBehavior(field) != sebufhttp.EmptyBehavior_EMPTY_BEHAVIOR_UNSPECIFIED)
+
+//@ func ValidateEmptyBehaviorAnnotation(field *protogen.Field, messageName string) (err error)
+//@   ensures iff: (err == nil) <==> spec.Rule_emptyBehavior(field)
+//@   ensures names: err != nil ==> contains(errmsg(err), string(field.Desc.Name())) && contains(errmsg(err), messageName)
+
+//@ func GetTimestampFormat(field *protogen.Field) (r sebufhttp.TimestampFormat)
+//@   pure
+//@   ensures r == spec.timestampFormat(field)
+
+//@ func IsTimestampField(field *protogen.Field) (r bool)
+//@   pure
+//@   ensures r == spec.isTimestamp(field)
+
+//@ func ValidateTimestampFormatAnnotation(field *protogen.Field, messageName string) (err error)
+//@   ensures iff: (err == nil) <==> spec.Rule_timestampFormat(field)
+//@   ensures names: err != nil ==> contains(errmsg(err), string(field.Desc.Name())) && contains(errmsg(err), messageName)
+
+//@ func GetBytesEncoding(field *protogen.Field) (r sebufhttp.BytesEncoding)
+//@   pure
+//@   ensures r == spec.bytesEncoding(field)
+
+//@ func ValidateBytesEncodingAnnotation(field *protogen.Field, messageName string) (err error)
+//@   ensures iff: (err == nil) <==> spec.Rule_bytesEncoding(field)
+//@   ensures names: err != nil ==> contains(errmsg(err), string(field.Desc.Name())) && contains(errmsg(err), messageName)
+
+//@ func IsFlattenField(field *protogen.Field) (r bool)
+//@   pure
+//@   ensures r == spec.flattenAnno(field)
+
+//@ func GetFlattenPrefix(field *protogen.Field) (r string)
+//@   pure
+//@   ensures r == spec.flattenPrefix(field)
+
+//@ func ValidateFlattenField(field *protogen.Field, messageName string) (err error)
+//@   ensures iff: (err == nil) <==> spec.Rule_flattenField(field)
+//@   ensures names: err != nil ==> contains(errmsg(err), string(field.Desc.Name())) && contains(errmsg(err), messageName)
+
+//@ func HasUnwrapAnnotation(field *protogen.Field) (r bool)
+//@   pure
+//@   ensures r == spec.unwrapAnno(field)
+
+//@ func GetUnwrapField(message *protogen.Message) (info *UnwrapFieldInfo, err error)
+//@   ensures iff: (err == nil) <==> spec.Rule_unwrap(message)
+//@   ensures none: err == nil ==> ((info == nil) <==> spec.noUnwrap(message))
+//@   ensures some: err == nil && info != nil ==> member(message.Fields, info.Field) && spec.unwrapAnno(info.Field) && (info.IsRootUnwrap <==> len(message.Fields) == 1) && (info.IsMapField <==> info.Field.Desc.IsMap())
+//@   ensures names: err != nil ==> contains(errmsg(err), string(message.Desc.Name()))
+//@   loop 1 invariant unwrapField == nil ==> (forall k int :: 0 <= k && k < _i ==> !spec.unwrapAnno(message.Fields[k]))
+//@   loop 1 invariant unwrapField != nil ==> (exists j int :: 0 <= j && j < _i && message.Fields[j] == unwrapField && spec.unwrapAnno(unwrapField) && (forall k int :: 0 <= k && k < _i && k != j ==> !spec.unwrapAnno(message.Fields[k])))
+//@   loop 1 invariant forall k int :: 0 <= k && k < _i ==> spec.unwrapOK(message.Fields[k])
+
+//@ func GetEnumEncoding(field *protogen.Field) (r sebufhttp.EnumEncoding)
+//@   pure
+//@   ensures r == spec.enumEncoding(field)
+
+//@ func GetEnumValueMapping(value *protogen.EnumValue) (r string)
+//@   pure
+//@   ensures r == spec.enumValueAnno(value)
+
+//@ func HasAnyEnumValueMapping(enum *protogen.Enum) (r bool)
+//@   pure
+//@   ensures r == spec.hasCustomValues(enum)
+//@   loop 1 invariant forall k int :: 0 <= k && k < _i ==> spec.enumValueAnno(enum.Values[k]) == ""
+
+//@ func HasConflictingEnumAnnotations(field *protogen.Field) (r bool)
+//@   pure
+//@   ensures r == !spec.Rule_enum(field)
